@@ -1184,6 +1184,42 @@ def regen_and_reader(ctx):
     return 64 if 'datacount_reader : rmeth := RInt' in text else 2 ** 32
 
 
+def load_align_spec():
+    import vlib
+    src = open(os.path.join(vlib.COQ, 'Spec', 'WasmAlignSpec.v')).read()
+    return [(m.group(1), int(m.group(2))) for m in re.finditer(r'\("([a-z0-9_.]+)", (\d+)\)', src)]
+
+
+def oracle_text_alignment(ctx):
+    """every memory instruction written in text WITHOUT align=/offset= must assemble to the bytes
+    opcode . log2(access bytes) . 0 — expected bytes are built from component objects with the natural
+    alignment of Spec/WasmAlignSpec.v through the binary writer (independent of text/util.py)"""
+    from ppci.wasm import Module, components as C
+    from ppci.wasm.components import Instruction, Ref
+    import ppci.wasm.opcodes as O
+    n = 0
+    for op, bits in load_align_spec():
+        if op not in O.OPCODES:
+            continue
+        nat = (bits // 8).bit_length() - 1
+        lane = len(O.OPERANDS[op]) == 3
+        text = '(module (type (func)) (func (type 0) %s%s))' % (op, ' 0' if lane else '')
+        n += 1
+        try:
+            exp = make_module([C.Type(0, [], []), C.Func(0, Ref('type', index=0), [],
+                                                         [Instruction(op, nat, 0, *([0] if lane else []))])]).to_bytes()
+            got = with_alarm(5, lambda: Module(text).to_bytes())
+        except Exception as ex:   # noqa: BLE001
+            exp, got = None, repr(ex)
+        if got != exp:
+            ctx.violation({'fn': 'text default alignment', 'args': [text],
+                           'expected': exp.hex() if isinstance(exp, bytes) else exp,
+                           'actual': got.hex() if isinstance(got, bytes) else got, 'key': 'text-align-' + op,
+                           'what': '%s without align= must have the natural alignment 2^%d (%d-bit access)' % (op, nat, bits),
+                           'how_to_replay': 'from ppci.wasm import Module; Module(args[0]).to_bytes().hex()'})
+    return n
+
+
 def search(ctx):
     """model-independent search for a concrete failing input"""
     import importlib
@@ -1195,6 +1231,7 @@ def search(ctx):
         dmax = 64
     n1 = oracle_instructions(ctx, 12 if deep else 4)
     n2 = oracle_modules(ctx, 1500 if deep else 120, dmax)
+    ctx.cov['stages']['oracle_text_alignment'] = oracle_text_alignment(ctx)
     ctx.cov['stages']['oracle'] = {'reference_instruction_encodings': n1, 'module_roundtrips': n2, 'deep': deep}
     ctx.cov['evaluations'] += n1 + n2
 
@@ -1215,7 +1252,7 @@ def text_validation(ctx, n):
 
 
 PROOFS = ['Proofs/C21_leb.vo', 'Proofs/C21_instr.vo', 'Proofs/C21_defs.vo', 'Proofs/C21_module.vo', 'Proofs/C21_spec.vo',
-          'Proofs/C21_canon.vo', 'Proofs/C21_text.vo', 'Proofs/C21_textdefs.vo']
+          'Proofs/C21_canon.vo', 'Proofs/C21_text.vo', 'Proofs/C21_textdefs.vo', 'Proofs/C21_align.vo']
 
 
 def run(ctx):
@@ -1302,8 +1339,16 @@ EXPLANATION = ('Unbounded Coq theorems about the hand model of binary/writer.py 
                'specification. NOT modelled/proved: the text form (text/parser.py, text/writer.py: validated by binary->text->binary '
                'round trips of index-consistent MVP modules only), names/ids of definitions and references, the utf-8 and '
                'struct float conversions of CPython, instructions with HEAPTYPE/ELEMIDX/DATAIDX/U8x16 immediates (unsupported by the '
-               'binary writer/reader themselves), write(read b) = b for canonical b (tested, not proved), acceptance by a reference '
-               'engine (none exists in the sandbox)')
+               'binary writer/reader themselves), acceptance by a reference engine (none exists in the sandbox). '
+               'ALSO PROVED since the first version: c21_canonical_bytes (canonical byte strings - minimal LEBs, writer-form flags, grouped '
+               'locals, sections once/ordered/exactly sized - are reproduced byte for byte by write(read b)); for the TEXT form, over '
+               'Model.WasmText / Model.WasmTextDefs: c21_text_instr_roundtrip and c21_text_body_roundtrip (printing and parsing of every '
+               'instruction class incl. offset=/align= keywords, folded long br_table, decimal integers through the lexer; float spelling '
+               'is a parameter), c21_text_def_roundtrip for type, table, memory, global, start, elem (table 0) and func definitions as '
+               'printed for a module read from binary, and c21_text_module_roundtrip for the (module ...) loop over them. Text form still '
+               'validation only: import/export/data definitions (string tokens and data-string escaping are not in the token model), elem on '
+               'a table other than 0, v128 lane loads/stores, the S-expression lexer chunking, symbolic identifiers and abbreviations '
+               '(covered by the symbolic-text generator)')
 TRUSTED = ['tools/props/c21.py table export (OPCODES/REVERZ/OPERANDS dicts, wfm/rfm probed with recording mocks, LANG_TYPES, SECTION_IDS)',
            'coq/Model/WasmBin.v is a faithful transcription of binary/writer.py and binary/reader.py (cross-checked per run: '
            'bytes of 150/2000 generated modules and 860/2600 single instructions, re-read modules component-wise, 60/400 malformed streams)',
@@ -1319,13 +1364,13 @@ MANIFEST = {
             'instructions of the opcode table with every immediate kind, nested expressions, all 12 section kinds, whole modules: '
             'reading what the writer wrote returns the module) plus a reflected check of the opcode table against an independent '
             'reference table of the specification; the text form is validated by round trip only (binary -> text -> binary on generated '
-            'MVP modules) except at the instruction level, where printing/parsing of instructions and function bodies is modelled and '
-            'proved (c21_text_*); the converse binary direction (canonical bytes are reproduced, c21_canonical_bytes) is proved too; '
+            'MVP modules and on generated WAT with symbolic identifiers/abbreviations) except for the canonical printed form of '
+            'instructions, function bodies, type/table/memory/global/start/elem/func definitions and the module loop over them, whose '
+            'printing and parsing are modelled and proved (c21_text_*; import/export/data definitions are not); the converse binary direction (canonical bytes are reproduced, c21_canonical_bytes) is proved too; '
             'there is no reference engine in the sandbox, so acceptance by one is not checked',
     'note': 'trusted: Coq kernel, the table exporter, the hand model (differentially checked against Module.to_bytes()/Module(bytes) on '
-            'every run), CPython struct/utf-8/repr/float()/int(). Known findings re-executed on every run: f32 signalling-NaN constants change bits; '
-            'text form: NaN payloads dropped, U8 operands (memory.fill/copy, lane ops) printed but not parsed, call_indirect on table != 0, '
-            'v128 load/store cannot be printed. No axioms.',
+            'every run), CPython struct/utf-8/repr/float()/int(). Recorded defects (all repaired, witnesses still re-executed on every run): datacount signedness, externref byte, f32 '
+            'signalling-NaN bits, text NaN payloads, U8 operands, call_indirect table, v128 load/store text. No axioms.',
     'technique': 'Coq proof over hand model + exported tables (reflection), differential correspondence, independent spec-table oracle',
 }
 
@@ -1831,7 +1876,7 @@ def corr_text_defs(ctx, n):
     from ppci.wasm import Module, components as C
     import ppci.wasm.opcodes as O
     cases, recs = [], []
-    stats = {'definitions': 0, 'memory': 0, 'table': 0, 'global': 0, 'func': 0}
+    stats = {'definitions': 0, 'memory': 0, 'table': 0, 'global': 0, 'func': 0, 'type': 0, 'start': 0, 'elem': 0, 'modules': 0}
     for _ in range(n):
         defs = gen_text_module_defs(ctx.rng)
         try:
@@ -1842,9 +1887,10 @@ def corr_text_defs(ctx, n):
         if len(m.definitions) != len(m2.definitions):
             continue
         for d, d2 in zip(m.definitions, m2.definitions):
-            if not isinstance(d, (C.Memory, C.Table, C.Global, C.Func)):
+            if not isinstance(d, (C.Memory, C.Table, C.Global, C.Func, C.Type, C.Start, C.Elem)):
                 continue
-            ins = list(d.init) if isinstance(d, C.Global) else (list(d.instructions) if isinstance(d, C.Func) else [])
+            ins = list(d.init) if isinstance(d, C.Global) else (list(d.instructions) if isinstance(d, C.Func) else (
+                list(d.mode[1]) if isinstance(d, C.Elem) else []))
             t32, t64 = {}, {}
             ok = True
             for i in ins:
@@ -1865,4 +1911,34 @@ def corr_text_defs(ctx, n):
             recs.append(('textdef-print', val, None))
             cases.append(('text_def_parse_val (%s) (%s)' % (fs, term), OkV(defn_repr(d2)[1])))
             recs.append(('textdef-parse', val, None))
+    # whole modules made of the modelled kinds: (module ...) tokens and the re-parsed definition list
+    kinds = (C.Memory, C.Table, C.Global, C.Func, C.Type, C.Start, C.Elem)
+    for _ in range(max(3, n // 3)):
+        defs = [d for d in gen_text_module_defs(ctx.rng) if isinstance(d, kinds)]
+        try:
+            m = Module(make_module(defs).to_bytes())
+            text = m.to_string()
+            m2 = with_alarm(10, lambda: Module(text))
+        except Exception:   # noqa: BLE001
+            continue
+        floats = [(k.name, a) for d in m.definitions for i in (getattr(d, 'instructions', None) or getattr(d, 'init', None)
+                                                               or (d.mode[1] if isinstance(d, C.Elem) else []))
+                  for k, a in zip(O.OPERANDS.get(i.opcode, ()), i.args) if isinstance(a, float)]
+        t32, t64 = {}, {}
+        ok = True
+        for kn, a in floats:
+            raw = float_raw(kn, a)
+            sp = C.Instruction('f32.const' if kn == 'F32' else 'f64.const', a).to_string().split(' ', 1)[1]
+            (t32 if kn == 'F32' else t64)[raw] = sp
+            ok = ok and spelling_reads_back(kn, raw, sp)
+        if not ok or len(set(t32.values())) < len(t32) or len(set(t64.values())) < len(t64):
+            continue
+        fs = 'table_fspell [%s] [%s]' % ('; '.join('(%s, "%s"%%string)' % (zl(r), s) for r, s in t32.items()),
+                                         '; '.join('(%s, "%s"%%string)' % (zl(r), s) for r, s in t64.items()))
+        term, val = defs_repr(m.definitions)
+        stats['modules'] += 1
+        cases.append(('text_module_print_val (%s) %s' % (fs, term), OkV(real_tokens(text))))
+        recs.append(('textmodule-print', val, None))
+        cases.append(('text_module_parse_val (%s) %s' % (fs, term), OkV(defs_repr(m2.definitions)[1])))
+        recs.append(('textmodule-parse', val, None))
     return cases, recs, stats
